@@ -50,6 +50,16 @@ def model_check(rep, name, c, timeout=3400):
     return r
 
 
+def together(parallel, *thunks):
+    """run independent TLC jobs (model-checking / generation) side by side in the quick tier; results in call order"""
+    if not parallel:
+        return [t() for t in thunks]
+    from concurrent.futures import ThreadPoolExecutor
+    with ThreadPoolExecutor(4) as ex:
+        futs = [ex.submit(t) for t in thunks]
+        return [f.result() for f in futs]
+
+
 def generate(rep, name, c, timeout=3400, keep=None, workers=1):
     """workers=1: deterministic and complete for the bound (thorough tier); workers>1: several times faster, but TLC's
     parallel search is not strictly breadth-first, so a few source states near the bound may be logged one level late
